@@ -276,6 +276,9 @@ pub use metrics::MetricsSnapshot;
 
 mod actor_ref;
 pub use actor_ref::{ActorRef, ActorWeak};
+#[cfg(rsactor_verif)]
+#[doc(hidden)]
+pub use actor_ref::__verif_block_on_parked;
 
 mod actor_result;
 pub use actor_result::{ActorResult, FailurePhase};
